@@ -102,6 +102,10 @@ def make_run(cfg):
                     if ending == "handshake-then-close":
                         p._pyroRelease()
                         return
+                    if cfg.get("first_call_oneway"):
+                        # the first use of the session class on this connection is a oneway call, directly followed by a normal one
+                        p.ow_touch("A")
+                        got["a"].append(("after-oneway", p.ping("a2")))
                     if cfg.get("init_tracks"):
                         reg["current_label"] = "A"
                         got["a"].append(("first-call", p.ping("a-first-call")))
@@ -255,8 +259,12 @@ def make_run(cfg):
                         V("tracked-resource-closed-%d-times|%s|%s" % (r.closed, cfg["server"], ecls if lab == "A" else "other-connection"), "%s closed %d times" % (r.name, r.closed))
                     if st == "untracked" and r.closed != 0:
                         V("untracked-resource-closed|%s" % ecls, "%s closed %d times" % (r.name, r.closed))
+                if cfg.get("first_call_oneway"):
+                    want = 1 + (1 if cfg["other"] else 0)
+                    if len(reg["instances"]) != want:
+                        V("session-instances-per-connection|%s|%d-instead-of-%d" % (cfg["server"], len(reg["instances"]), want), "%d session instances were constructed for %d connections" % (len(reg["instances"]), want))
                 alive = [i for i, r in enumerate(reg["instances"]) if r() is not None]
-                if alive:
+                if alive and not cfg.get("first_call_oneway"):     # (the harness keeps the finished oneway thread object, and with it the method's instance)
                     V("session-instance-survives|%s|%s" % (cfg["server"], ecls), "%d of %d session instances still alive" % (len(alive), len(reg["instances"])))
                 open_srv = [s for c, s in w.net.sockets if not s.closed]
                 if open_srv:
@@ -321,6 +329,10 @@ def configs(quick):
                 for linger in (0, 30):
                     out.append({"server": server, "ending": ending, "tracked": 1, "untracked": 0, "other": True, "streams": streams, "linger": linger, "p": 1 if (streams == 1 or not quick) else 0,
                                 "r": 1, "horizon": 4000})
+    # the first call on a connection is a oneway call (its own thread), directly followed by a normal call
+    for server in ("multiplex", "thread"):
+        for ending in ("release", "reset@40"):
+            out.append({"server": server, "ending": ending, "tracked": 1, "untracked": 0, "other": True, "first_call_oneway": True, "p": 1, "r": 1 if quick else 2, "horizon": 4000})
     # the disconnect hook installed on the daemon instance
     for server in ("multiplex", "thread"):
         for ending in ("release", "reset@40"):
